@@ -401,73 +401,7 @@ pub fn check_c04(prop: &str, c: &Case, b: &Built, v: &meshless_voronoi::Voronoi,
                 None => foreign_ill = true,
             }
             let n = f.normal();
-            rep.count("faces_checked", 1);
-            // unit length
-            let dn = (n.length() - 1.).abs();
-            rep.max("c04.unit_normal_err_over_8u", dn / (8. * s.u));
-            if !(dn <= 8. * s.u) {
-                rep.violations.push(Violation::new(prop, "c04.normal_not_unit", format!("face {}->{:?}: |n| - 1 = {:e}", left, f.right(), n.length() - 1.), Some(c), json!({"left": left, "right": f.right(), "normal": v3j(n)})));
-            }
-            let gl = pts[left];
-            match f.right() {
-                Some(r) => {
-                    let h = pts[r] + f.shift().unwrap_or(DVec3::ZERO);
-                    let dir = h - gl;
-                    let dl = dir.length();
-                    let cosd = n.dot(dir) / dl;
-                    // parallel and same direction: |n - dir/|dir|| small
-                    let dev = (n - dir / dl).length();
-                    // without a shift the difference of the two (exactly given) generator positions carries one rounding
-                    // only, whatever the distance of the box from the origin; with a shift, `right + shift` is rounded at
-                    // the magnitude of the image position first
-                    let tol_dir = match f.shift() {
-                        None => 16. * s.u,
-                        Some(_) => 16. * s.u * (1. + h.abs().max_element().max(pts[r].abs().max_element()) / dl),
-                    };
-                    rep.max("c04.normal_dir_err_over_tol", dev / tol_dir);
-                    if !(cosd > 0.) || !(dev <= tol_dir) {
-                        rep.violations.push(Violation::new(prop, "c04.normal_direction", format!("face {}->{} shift {:?}: normal {:?} does not point from the left generator to the right one (deviation {:e}, tol {:e})", left, r, f.shift(), n, dev, tol_dir), Some(c), json!({"left": left, "right": r, "normal": v3j(n), "dev": dev})));
-                    }
-                    // centroid on the bisector (only for faces of non-negligible area)
-                    let tf = tols[left].unwrap_or(t);
-                    let fan = fan_of(&tf, d);
-                    if f.area() > s.athr && !tf.ill {
-                        let mid = 0.5 * (gl + h);
-                        let res = (f.centroid() - mid).dot(dir / dl).abs();
-                        // the centroid is a signed combination of fan triangles (apex = projected generator); its
-                        // off-plane error is amplified by (sum of |triangle areas|) / (face area)
-                        let tolp = (4. * tf.max_dv + K * s.u * s.m) * (1. + fan / f.area());
-                        rep.max_at("c04.centroid_plane_res_over_tol", res / tolp, || format!("{} face {left}->{r} area {:e} res {:e}", c.origin, f.area(), res));
-                        if !(res <= tolp) {
-                            rep.violations.push(Violation::new(prop, "c04.centroid_off_bisector", format!("face {}->{}: centroid is {:e} off the bisector plane (tol {:e})", left, r, res, tolp), Some(c), json!({"left": left, "right": r, "res": res})));
-                        }
-                    }
-                }
-                None => {
-                    // wall: outward axis direction, centroid on the wall
-                    match wall_of_normal(n) {
-                        Some(q) if (q as usize) / 2 < d => {
-                            let ax = q as usize / 2;
-                            let wallpos = if q % 2 == 0 { a[ax] } else { a[ax] + w[ax] };
-                            if c.periodic {
-                                rep.violations.push(Violation::new(prop, "c04.boundary_face_in_periodic", format!("cell {i} has a boundary face although the tessellation is periodic"), Some(c), json!({"cell": i})));
-                            }
-                            let tf = tols[left].unwrap_or(t);
-                            let fan = fan_of(&tf, d);
-                            if f.area() > s.athr && !tf.ill {
-                                let res = (f.centroid()[ax] - wallpos).abs();
-                                let tolp = (4. * tf.max_dv + K * s.u * s.m) * (1. + fan / f.area());
-                                if !(res <= tolp) {
-                                    rep.violations.push(Violation::new(prop, "c04.centroid_off_wall", format!("cell {i}: wall face centroid {:e} off the wall", res), Some(c), json!({"cell": i, "res": res})));
-                                }
-                            }
-                        }
-                        _ => {
-                            rep.violations.push(Violation::new(prop, "c04.wall_normal", format!("cell {i}: boundary face normal {:?} is not an outward active axis direction", n), Some(c), json!({"cell": i, "normal": v3j(n)})));
-                        }
-                    }
-                }
-            }
+            c04_face(prop, c, &s, a, w, &pts, d, &tols, t, i, f, rep);
             closure += sign * f.area() * n;
             // for a face seen from the right, the centroid is the same point (no shift since it is unshifted)
             div += sign * f.area() * n.dot(f.centroid() - g);
@@ -501,6 +435,121 @@ pub fn check_c04(prop: &str, c: &Case, b: &Built, v: &meshless_voronoi::Voronoi,
     for (fi, f) in v.faces().iter().enumerate() {
         if !(f.area().is_finite() && f.centroid().is_finite() && f.normal().is_finite()) {
             rep.violations.push(Violation::new(prop, "c04.nonfinite_face", format!("face #{fi} has non-finite values"), Some(c), json!({"face": fi})));
+        }
+    }
+}
+
+/// The per-face clauses of C04 for one face that cell `i` lists (or, for faces held outside a `Voronoi`, that was produced
+/// for cell `i`): unit normal, direction away from the left generator, centroid on the bisector plane / wall.
+#[allow(clippy::too_many_arguments)]
+pub fn c04_face(prop: &str, c: &Case, s: &Scales, a: DVec3, w: DVec3, pts: &[DVec3], d: usize, tols: &[Option<CellTol>], t: CellTol, i: usize, f: &meshless_voronoi::VoronoiFace, rep: &mut Report) {
+    let left = f.left();
+    let n = f.normal();
+    rep.count("faces_checked", 1);
+    // unit length
+    let dn = (n.length() - 1.).abs();
+    rep.max("c04.unit_normal_err_over_8u", dn / (8. * s.u));
+    if !(dn <= 8. * s.u) {
+        rep.violations.push(Violation::new(prop, "c04.normal_not_unit", format!("face {}->{:?}: |n| - 1 = {:e}", left, f.right(), n.length() - 1.), Some(c), json!({"left": left, "right": f.right(), "normal": v3j(n)})));
+    }
+    let gl = pts[left];
+    match f.right() {
+        Some(r) => {
+            let h = pts[r] + f.shift().unwrap_or(DVec3::ZERO);
+            let dir = h - gl;
+            let dl = dir.length();
+            let cosd = n.dot(dir) / dl;
+            // parallel and same direction: |n - dir/|dir|| small
+            let dev = (n - dir / dl).length();
+            // without a shift the difference of the two (exactly given) generator positions carries one rounding
+            // only, whatever the distance of the box from the origin; with a shift, `right + shift` is rounded at
+            // the magnitude of the image position first
+            let tol_dir = match f.shift() {
+                None => 16. * s.u,
+                Some(_) => 16. * s.u * (1. + h.abs().max_element().max(pts[r].abs().max_element()) / dl),
+            };
+            rep.max("c04.normal_dir_err_over_tol", dev / tol_dir);
+            if !(cosd > 0.) || !(dev <= tol_dir) {
+                rep.violations.push(Violation::new(prop, "c04.normal_direction", format!("face {}->{} shift {:?}: normal {:?} does not point from the left generator to the right one (deviation {:e}, tol {:e})", left, r, f.shift(), n, dev, tol_dir), Some(c), json!({"left": left, "right": r, "normal": v3j(n), "dev": dev})));
+            }
+            // centroid on the bisector (only for faces of non-negligible area)
+            let tf = tols[left].unwrap_or(t);
+            let fan = fan_of(&tf, d);
+            if f.area() > s.athr && !tf.ill {
+                let mid = 0.5 * (gl + h);
+                let res = (f.centroid() - mid).dot(dir / dl).abs();
+                // the centroid is a signed combination of fan triangles (apex = projected generator); its
+                // off-plane error is amplified by (sum of |triangle areas|) / (face area)
+                let tolp = (4. * tf.max_dv + K * s.u * s.m) * (1. + fan / f.area());
+                rep.max_at("c04.centroid_plane_res_over_tol", res / tolp, || format!("{} face {left}->{r} area {:e} res {:e}", c.origin, f.area(), res));
+                if !(res <= tolp) {
+                    rep.violations.push(Violation::new(prop, "c04.centroid_off_bisector", format!("face {}->{}: centroid is {:e} off the bisector plane (tol {:e})", left, r, res, tolp), Some(c), json!({"left": left, "right": r, "res": res})));
+                }
+            }
+        }
+        None => {
+            // wall: outward axis direction, centroid on the wall
+            match wall_of_normal(n) {
+                Some(q) if (q as usize) / 2 < d => {
+                    let ax = q as usize / 2;
+                    let wallpos = if q % 2 == 0 { a[ax] } else { a[ax] + w[ax] };
+                    if c.periodic {
+                        rep.violations.push(Violation::new(prop, "c04.boundary_face_in_periodic", format!("cell {i} has a boundary face although the tessellation is periodic"), Some(c), json!({"cell": i})));
+                    }
+                    let tf = tols[left].unwrap_or(t);
+                    let fan = fan_of(&tf, d);
+                    if f.area() > s.athr && !tf.ill {
+                        let res = (f.centroid()[ax] - wallpos).abs();
+                        let tolp = (4. * tf.max_dv + K * s.u * s.m) * (1. + fan / f.area());
+                        if !(res <= tolp) {
+                            rep.violations.push(Violation::new(prop, "c04.centroid_off_wall", format!("cell {i}: wall face centroid {:e} off the wall", res), Some(c), json!({"cell": i, "res": res})));
+                        }
+                    }
+                }
+                _ => {
+                    rep.violations.push(Violation::new(prop, "c04.wall_normal", format!("cell {i}: boundary face normal {:?} is not an outward active axis direction", n), Some(c), json!({"cell": i, "normal": v3j(n)})));
+                }
+            }
+        }
+    }
+}
+
+/// C04 on faces that live in caller-owned vectors: the public conversion primitive `VoronoiIntegrator::build_voronoi_cells`
+/// appends the faces of every cell to the vector the caller passes for that cell. It is called twice on the same vectors
+/// (a second pass into lists that already hold faces is what a caller who accumulates several integrators or masks does);
+/// afterwards EVERY face in the vectors - those of the first call too - must still satisfy the per-face clauses.
+pub fn check_c04_face_vectors(prop: &str, c: &Case, b: &Built, rep: &mut Report) {
+    let s = scales(c);
+    let (a, w) = c.norm_box();
+    let pts = c.proj_pts();
+    let tols: Vec<Option<CellTol>> = (0..c.n()).map(|i| b.vi.get_cell_at(i).map(|cell| cell_tol(cell, &s))).collect();
+    let mut lists: Vec<Vec<meshless_voronoi::VoronoiFace>> = (0..c.n()).map(|_| vec![]).collect();
+    let r = guarded(|| {
+        let _ = b.vi.build_voronoi_cells(&mut lists);
+        let first: Vec<usize> = lists.iter().map(|l| l.len()).collect();
+        let _ = b.vi.build_voronoi_cells(&mut lists);
+        first
+    });
+    let first = match r {
+        Ok(f) => f,
+        Err(p) => {
+            rep.violations.push(Violation::new(prop, "totality.panic", format!("build_voronoi_cells panicked: {} at {}:{}", p.message, p.file, p.line), Some(c), json!({})));
+            return;
+        }
+    };
+    for i in 0..c.n() {
+        let Some(t) = tols[i] else { continue };
+        if lists[i].len() != 2 * first[i] {
+            rep.violations.push(Violation::new(prop, "c04.face_vectors_count", format!("cell {i}: the second call of build_voronoi_cells appended {} faces, the first one {}", lists[i].len() - first[i].min(lists[i].len()), first[i]), Some(c), json!({"cell": i})));
+            continue;
+        }
+        for f in &lists[i] {
+            if !(f.area().is_finite() && f.centroid().is_finite() && f.normal().is_finite()) {
+                rep.violations.push(Violation::new(prop, "c04.nonfinite_face", format!("cell {i}: a face in the caller's vector has non-finite values"), Some(c), json!({"cell": i})));
+                continue;
+            }
+            c04_face(prop, c, &s, a, w, &pts, c.dim, &tols, t, i, f, rep);
+            rep.count("faces_in_caller_vectors_checked", 1);
         }
     }
 }
